@@ -1048,13 +1048,3 @@ Proof.
   destruct (_ <? VNC_QCAP)%nat; [apply IH|].
   destruct p; [destruct (pa_die _)|]; try apply IH; congruence.
 Qed.
-
-(* at HEAD: once the pusher is gone, more buffered requests than free slots block serve() *)
-Lemma serve_queue_head_blocks sched reqs q :
-  (q <= VNC_QCAP)%nat -> (VNC_QCAP - q < reqs)%nat -> serve_queue false sched reqs q PGone = QBlocked.
-Proof.
-  revert sched q; induction reqs as [|r IH]; intros sched q Hq Hr; [lia|]. cbn [serve_queue].
-  destruct (q <? VNC_QCAP)%nat eqn:E.
-  - apply Nat.ltb_lt in E. apply IH; lia.
-  - reflexivity.
-Qed.
